@@ -214,16 +214,25 @@ def sample_pair(fam, table, label_id, code):
     return dict(table=f'{fam}.{table}', code_register=hex(code), result={k: str(v) for k, v in (d or {}).items()}, error=err)
 
 
+UNIFORMS = (0, 1, 2, 3, 4, 5, 6, 7, 8, 0xFFFF)
+
+
 def job_formulas(j):
-    family, seed = j
+    family, seed = j[:2]
+    only = j[2] if len(j) > 2 else 'all'
     world.reset()
     tname_, fl = formulas(family)
     t = [x for x in all_tables() if x.family == family and x.name == tname_][0]
     byid = {s.id_: s for s in t.sensors}
     n = 0
     vio = {}
-    for target, regs, dom, pred in fl:
-        ctx = context(t.nbytes, seed, 7)
+    # every formula is evaluated in the seed-selected block and in blocks whose OTHER registers all hold one small code
+    # (work modes, battery modes, ... : a derived value must not depend on registers outside its definition)
+    variants = [(None, fl_) for fl_ in fl] + [(k, fl_) for k in UNIFORMS for fl_ in fl]
+    if only != 'all':
+        variants = [v for v in variants if v[0] == only]
+    for uniform, (target, regs, dom, pred) in variants:
+        ctx = context(t.nbytes, seed, 7) if uniform is None else bytearray(uniform.to_bytes(2, 'big') * (t.nbytes // 2 + 1))[:t.nbytes]
         resp = t.response(bytes(ctx))
         slots = []
         for r in regs:
@@ -235,7 +244,7 @@ def job_formulas(j):
         doms = []
         for pos, nb, s in slots:
             if dom is None:
-                doms.append(range(65536))
+                doms.append(range(65536) if uniform is None else S16)
             elif nb == 4:
                 doms.append(G32 if dom is G16 or dom is S16 else dom)
             elif nb == 1:
@@ -260,10 +269,10 @@ def job_formulas(j):
             except TypeError:
                 ok = True   # a part is None where the formula needs a number: nothing to compare
             if not ok:
-                key = f'formula/{family}/{target}'
+                key = f'formula/{family}/{target}' + ('' if uniform is None else '/other-registers-uniform')
                 vio.setdefault(key, []).append(dict(
                     key=key, clause='derived value equals its definition over the same response',
-                    replay=dict(kind='formula', family=family, target=target, values=list(combo)),
+                    replay=dict(kind='formula', family=family, target=target, values=list(combo), uniform=uniform),
                     detail=dict(target=target, registers=[str(r) for r in regs], values=[hex(c) for c in combo],
                                 reported={k: str(v)[:30] for k, v in d.items() if k in regs or k == target})))
     res = []
@@ -482,7 +491,7 @@ def run(tier, seed, rep):
         if npairs.get(fam, 0) < mn:
             rep.add(f'pairs-present/{fam}', 'code/label pairs of the tables are discoverable',
                     dict(kind='pairs', family=fam), dict(found=npairs.get(fam, 0), expected_at_least=mn))
-    for n, res in pmap(job_formulas, [(f, seed) for f in ('ET', 'DT', 'ES')]):
+    for n, res in pmap(job_formulas, [(f, seed, u) for f in ('ET', 'DT', 'ES') for u in (None,) + UNIFORMS]):
         total += n
         rep.add_many(res)
     napi = 0
